@@ -738,6 +738,7 @@ func runC20(c *Ctx, r *Report) {
 		c20r9(c, r) // ... which mark the preview stale
 		c20r10(c, r)
 		c20r11(c, r)
+		c20r13(c, r)
 		c12r7(c, r) // whether a preview depends on the selection is the OR over its placeholders
 		c20r12(c, r)
 	}()
